@@ -881,9 +881,46 @@ Definition run_wire_spec (x : xval) : xval :=
   | _ => bad_input
   end.
 
+(** component hosts.wire2: (L hosts (L history ...)): one client per history, all running concurrently against the
+    same server.  Only for histories that are routed to pairwise disjoint sets of hosts (otherwise the replies
+    depend on the schedule): by Properties/C15.v [wire_concurrent_clients] every client then sees, in every
+    interleaving, what it would see alone. *)
+Definition wire_touches (ops : list op) (reqs : list wreq) (i : nat) : bool :=
+  existsb (fun r => match wire_route ops r with Some j => Nat.eqb j i | None => false end) reqs.
+Definition hosts_touched (ops : list op) (reqs : list wreq) : list nat :=
+  flat_map (fun r => match wire_route ops r with Some i => [i] | None => [] end) reqs.
+Definition disjointb (a b : list nat) : bool := forallb (fun x => negb (existsb (Nat.eqb x) b)) a.
+Fixpoint pairwise_disjoint (l : list (list nat)) : bool :=
+  match l with
+  | [] => true
+  | a :: r => forallb (disjointb a) r && pairwise_disjoint r
+  end.
+Definition run_wire2_with (f : list op -> list wreq -> xval) (x : xval) : xval :=
+  match x with
+  | XL [hosts; XL hs] =>
+      match d_list d_whost hosts, d_all (d_list d_wreq) hs with
+      | Some ops, Some hs' =>
+          if negb (pairwise_disjoint (map (hosts_touched ops) hs')) then bad_input
+          else if negb (at_most_one_default ops) then XL [XN 2]
+          else XL [XN 0; XL (map (f ops) hs')]
+      | _, _ => bad_input
+      end
+  | _ => bad_input
+  end.
+Definition run_wire2 : xval -> xval :=
+  run_wire2_with (fun ops reqs =>
+    match build ops with
+    | Ok c => XL (map x_wire (wire_history auth_ok_http fixed c (fun _ => hstate0) reqs))
+    | _ => bad_input
+    end).
+Definition run_wire2_spec : xval -> xval :=
+  run_wire2_with (fun ops reqs => XL (map (fun w => x_wire (Ok w)) (wire_spec ops (fun _ => hstate0) reqs))).
+
 Definition hosts_table : list (bytes * (xval -> xval)) :=
   [ (B "hosts.lookup", run_lookup);
     (B "hosts.lookup_v0", run_lookup_v0);
     (B "hosts.spec", run_lookup_spec);
     (B "hosts.wire", run_wire);
-    (B "hosts.wire_spec", run_wire_spec) ].
+    (B "hosts.wire_spec", run_wire_spec);
+    (B "hosts.wire2", run_wire2);
+    (B "hosts.wire2_spec", run_wire2_spec) ].
